@@ -2821,6 +2821,57 @@ func apiCheckParseIndependent(t *testing.T) {
 			t.Errorf("REPRODUCED: a parsed function changed behaviour after its Config was modified: %#v %v", res, err)
 		}
 	}
+	// the same path parsed again: every call sees the Config as it is THEN (the Config's maps are updated in place, a copy
+	// of a Config shares them, accessor mode is part of the Config) - no result of an earlier Parse may stand in
+	for _, path := range []string{`$.a.f()`, `$.b.g()`, `$.b[?(@.f() == "two")]`, `$.a`} {
+		c := Config{}
+		c.SetFilterFunction("f", func(v interface{}) (interface{}, error) { return "one", nil })
+		c.SetAggregateFunction("g", func(v []interface{}) (interface{}, error) { return "one", nil })
+		show := func(c Config) string {
+			apiCount()
+			fn, err := Parse(path, c)
+			if err != nil {
+				return fmt.Sprintf("%T", err)
+			}
+			res, err := fn(doc)
+			for i := range res {
+				if acc, ok := res[i].(Accessor); ok {
+					res[i] = fmt.Sprintf("accessor(%v)", acc.Get())
+				}
+			}
+			return fmt.Sprintf("%v %T", res, err)
+		}
+		first := show(c)
+		c.SetFilterFunction("f", func(v interface{}) (interface{}, error) { return "two", nil })
+		c.SetAggregateFunction("g", func(v []interface{}) (interface{}, error) { return "two", nil })
+		second := show(c)
+		fresh := Config{}
+		fresh.SetFilterFunction("f", func(v interface{}) (interface{}, error) { return "two", nil })
+		fresh.SetAggregateFunction("g", func(v []interface{}) (interface{}, error) { return "two", nil })
+		if want := show(fresh); second != want {
+			t.Errorf("REPRODUCED: Parse(%q) after its Config re-registered the functions gives %s, a fresh Config with the same content gives %s (first Parse gave %s)", path, second, want, first)
+			return
+		}
+		d := c // shares the maps
+		d.SetFilterFunction("f", func(v interface{}) (interface{}, error) { return "three", nil })
+		d.SetAggregateFunction("g", func(v []interface{}) (interface{}, error) { return "three", nil })
+		third := show(d)
+		fresh3 := Config{}
+		fresh3.SetFilterFunction("f", func(v interface{}) (interface{}, error) { return "three", nil })
+		fresh3.SetAggregateFunction("g", func(v []interface{}) (interface{}, error) { return "three", nil })
+		if want := show(fresh3); third != want {
+			t.Errorf("REPRODUCED: Parse(%q) with a copied and updated Config gives %s, a fresh Config with the same content gives %s", path, third, want)
+			return
+		}
+		c.SetAccessorMode()
+		fresh.SetAccessorMode()
+		fresh.SetFilterFunction("f", func(v interface{}) (interface{}, error) { return "three", nil })
+		fresh.SetAggregateFunction("g", func(v []interface{}) (interface{}, error) { return "three", nil })
+		if got, want := show(c), show(fresh); got != want {
+			t.Errorf("REPRODUCED: Parse(%q) after its Config switched to accessor mode gives %s, a fresh Config gives %s", path, got, want)
+			return
+		}
+	}
 }
 
 // ---------------------------------------------------------------------------------------------------------------
